@@ -9,7 +9,7 @@ Definition keys (m : amap) : list nat := map fst m.
 Definition amap_equiv (a b : amap) : bool :=
   forallb (fun k => opt_eqb (lookup k a) (lookup k b)) (keys a ++ keys b).
 Definition settings_equiv (a b : settings) : bool :=
-  amap_equiv (s_env a) (s_env b) && amap_equiv (s_vars a) (s_vars b) && Nat.eqb (s_dir a) (s_dir b).
+  amap_equiv (s_env a) (s_env b) && amap_equiv (s_vars a) (s_vars b) && Nat.eqb (s_dir a) (s_dir b) && Nat.eqb (s_rest a) (s_rest b).
 
 (* remove the first element of l equivalent to x *)
 Fixpoint remove_one (x : settings) (l : list settings) : option (list settings) :=
